@@ -345,3 +345,11 @@ def assigned_from(fn_node, pred):
         elif isinstance(n, ast.AnnAssign) and n.value is not None and pred(n.value) and isinstance(n.target, ast.Name):
             out.append(n.target.id)
     return out
+
+
+def norm_if(node):
+    """(test, then_body, else_body) of an If with leading `not`s removed (branches swapped accordingly)."""
+    t, a, b = node.test, node.body, node.orelse
+    while isinstance(t, ast.UnaryOp) and isinstance(t.op, ast.Not):
+        t, a, b = t.operand, b, a
+    return t, a, b
